@@ -1897,3 +1897,10 @@ def _await_executor(it, aw, idx, node):
     if c is not None and hasattr(c, "executor_outcome"):
         return c.executor_outcome(it, aw, idx, node)
     raise Unsupported("run_in_executor outside a contract that defines its outcome")
+
+
+@spec("new:bool", "builtins.bool")
+def _new_bool(it, lv, ca, node):
+    if not ca.pos:
+        return it.mk_bool(False)
+    return V.VBool(it.truthy(ca.pos[0]))
